@@ -165,7 +165,9 @@ func buildCall(sym slip.Symbol, args slip.List, p *slip.Printer) (node Node) {
 	// call at the end of this function.
 	case "let", "let*":
 		if 1 <= len(args) {
-			node = newLet(name, args, p)
+			if _, ok := args[0].(slip.List); ok || args[0] == nil {
+				node = newLet(name, args, p)
+			}
 		}
 	case "lambda":
 		if 1 <= len(args) {
